@@ -571,10 +571,42 @@ Fixpoint xcheck_from (n : nat) (w : @wst state) (wk : @wst kstate) (m_ok k_ok : 
 Definition xcheck_case (c : list (xevent * xobs)) : list (nat * N) :=
   xcheck_from 0 xm_init xk_init true true c.
 
+(** A case without slow handles is checked by [check_case] itself (the
+    function the K_P soundness theorems are about); of its extra observations
+    only "done() returned" remains, which must be exactly the applied
+    releases. *)
+Fixpoint unlift (n : nat) (c : list (xevent * xobs)) : option (list (event * obs) * option nat) :=
+  match c with
+  | [] => Some ([], None)
+  | (XE e, x) :: c' =>
+      match unlift (S n) c' with
+      | Some (p, bad) =>
+          let exp := match e with
+                     | ERelease i => if o_ign (canon (x_o x)) then [] else [i]
+                     | _ => []
+                     end in
+          let ok := nats_eqb (x_inclose x) [] && nats_eqb (sort_nat (x_reldone x)) exp in
+          Some ((e, x_o x) :: p, if ok then bad else Some n)
+      | None => None
+      end
+  | _ => None
+  end.
+
+Definition xcheck_case' (c : list (xevent * xobs)) : list (nat * N) :=
+  match unlift 0 c with
+  | Some (p, bad) =>
+      let r := check_case p in
+      r ++ match bad with
+           | Some n => if existsb (fun mt => negb (N.eqb (snd mt) 1)) r then [] else [(n, 7%N)]
+           | None => []
+           end
+  | None => xcheck_case c
+  end.
+
 Fixpoint xcheck_all_from (i : nat) (cs : list (list (xevent * xobs))) : list (nat * nat * N) :=
   match cs with
   | [] => []
-  | c :: cs' => map (fun sn => (i, fst sn, snd sn)) (xcheck_case c) ++ xcheck_all_from (S i) cs'
+  | c :: cs' => map (fun sn => (i, fst sn, snd sn)) (xcheck_case' c) ++ xcheck_all_from (S i) cs'
   end.
 
 Definition xcheck_all (cs : list (list (xevent * xobs))) : list (nat * nat * N) :=
